@@ -93,6 +93,34 @@ pub fn gen_stall(rng: &mut Rng, n: usize, out: &mut Vec<String>) {
 /// "resp" - the response to another, timed operation arrives during the stall and must be handed over before that operation's deadline (C12);
 /// "ids"  - an operation started during the stall times out at its deadline; its id must not stay reserved (C13);
 /// "drop" - the last handle is dropped during the stall: the driver must end and close the transport (C04).
+/// F58: an operation issued on another thread in the very moment the connection task ends (the peer has closed at once). Three outcomes are
+/// possible - the send fails, the queued request dies with the task's receiver, or the send slips in while the receiver is being dropped and
+/// the request stays in the channel, which only goes away with its last sender: the handle the caller is waiting on. Whatever the outcome the
+/// call must return (C04). Real threads, `attempts` tries on each of four runtimes; stops at the first call that has not returned after 5 s.
+pub fn gen_mtclose(_rng: &mut Rng, n: usize, out: &mut Vec<String>) { out.push(format!("mtclose {}", n.max(1000))); }
+pub fn run_mtclose(args: &[&str]) -> (String, Option<String>) {
+    let attempts: usize = args[0].parse().unwrap();
+    let stuck = Arc::new(std::sync::atomic::AtomicUsize::new(0)); let done_n = Arc::new(std::sync::atomic::AtomicUsize::new(0));
+    let mut hs = vec![];
+    for _ in 0..4 { let (stuck, done_n) = (stuck.clone(), done_n.clone()); hs.push(std::thread::spawn(move || {
+        let rt = match tokio::runtime::Builder::new_multi_thread().worker_threads(2).enable_all().build() { Ok(r) => r, Err(_) => return };
+        for _ in 0..attempts {
+            if stuck.load(std::sync::atomic::Ordering::SeqCst) > 0 { break; }
+            let hung = rt.block_on(async {
+                let (client, server) = tokio::io::duplex(1024);
+                let (conn, mut ldap) = LdapConnAsync::verif_new(Box::new(client));
+                tokio::spawn(async move { let _ = conn.drive().await; });
+                tokio::spawn(async move { drop(server); });          // the peer closes at once
+                tokio::time::timeout(Duration::from_secs(5), ldap.delete("cn=x")).await.is_err()
+            });
+            done_n.fetch_add(1, std::sync::atomic::Ordering::SeqCst);
+            if hung { stuck.fetch_add(1, std::sync::atomic::Ordering::SeqCst); break; }
+        }
+    })); }
+    for h in hs { let _ = h.join(); }
+    let o = if stuck.load(std::sync::atomic::Ordering::SeqCst) > 0 { Some(format!("F58: an operation issued while the connection task was ending had not returned after 5 s (attempt {} or so) - its request was accepted by a channel nobody reads any more", done_n.load(std::sync::atomic::Ordering::SeqCst))) } else { None };
+    ("oracle-only".into(), o)
+}
 pub fn gen_wstall(_rng: &mut Rng, _n: usize, out: &mut Vec<String>) { for v in ["resp", "ids", "drop"] { out.push(format!("wstall {}", v)); } }
 pub fn run_wstall(args: &[&str]) -> (String, Option<String>) {
     let variant = args[0].to_string();
